@@ -88,6 +88,7 @@ type c04Op struct {
 	Sys     []byte
 	Lics    [][]byte
 	Params  [][2]string // key, raw JSON value
+	FromReg *c04Reg     // create … from: what the registry serves for the FROM name (parseFromModel pulls a model that is not in the store)
 	Msgs    [][2]string // create: messages as role, content (texts that need no JSON escaping)
 	Src     c04Name
 	Dst     c04Name
@@ -168,6 +169,13 @@ func (o c04Op) line() string {
 				sb.WriteString(" " + zzverif.Hex([]byte(m[0])) + " " + zzverif.Hex([]byte(m[1])))
 			}
 		}
+		if o.FromReg != nil {
+			sb.WriteString(" fromreg " + strconv.Itoa(len(o.FromReg.Layers)))
+			for _, l := range o.FromReg.Layers {
+				sb.WriteString(" " + l.toks())
+			}
+			sb.WriteString(" " + o.FromReg.Config.toks())
+		}
 		return sb.String()
 	case "copy", "plant":
 		return o.Kind + " " + o.Src.toks() + " " + o.Dst.toks()
@@ -240,6 +248,26 @@ func (p *c04Toks) int() int {
 	return n
 }
 
+// reg reads n registry layers and the config (the syntax of `pull` and of the `fromreg` suffix of `create`).
+func (p *c04Toks) reg(n int) *c04Reg {
+	rl := func() c04RegLayer {
+		l := c04RegLayer{Media: p.next(), Content: zzverif.Unhex(p.next())}
+		if sv := p.next(); sv != "=" {
+			l.Served = zzverif.Unhex(sv)
+			if l.Served == nil {
+				l.Served = []byte{}
+			}
+		}
+		return l
+	}
+	r := &c04Reg{}
+	for i := 0; i < n; i++ {
+		r.Layers = append(r.Layers, rl())
+	}
+	r.Config = rl()
+	return r
+}
+
 func c04ParseOp(s string) c04Op {
 	p := &c04Toks{t: strings.Fields(s)}
 	o := c04Op{Kind: p.next()}
@@ -280,6 +308,10 @@ func c04ParseOp(s string) c04Op {
 				o.Msgs = append(o.Msgs, [2]string{a, b})
 			}
 		}
+		if p.i < len(p.t) && p.t[p.i] == "fromreg" {
+			p.next()
+			o.FromReg = p.reg(p.int())
+		}
 	case "copy", "plant":
 		o.Src = p.name()
 		o.Dst = p.name()
@@ -303,21 +335,7 @@ func c04ParseOp(s string) c04Op {
 			if err != nil {
 				panic(err)
 			}
-			rl := func() c04RegLayer {
-				l := c04RegLayer{Media: p.next(), Content: zzverif.Unhex(p.next())}
-				if sv := p.next(); sv != "=" {
-					l.Served = zzverif.Unhex(sv)
-					if l.Served == nil {
-						l.Served = []byte{}
-					}
-				}
-				return l
-			}
-			o.Reg = &c04Reg{}
-			for i := 0; i < n; i++ {
-				o.Reg.Layers = append(o.Reg.Layers, rl())
-			}
-			o.Reg.Config = rl()
+			o.Reg = p.reg(n)
 		}
 	default:
 		panic("replay line: bad op " + o.Kind)
@@ -337,6 +355,7 @@ type c04Server struct {
 	h   http.Handler
 	dir string
 	t   *testing.T
+	rec []string // the operations executed on this server so far, in replay format
 }
 
 func (s *c04Server) do(method, path string, body []byte) (int, []byte) {
@@ -390,6 +409,7 @@ func (s *c04Server) manifestPath(n c04Name) string {
 
 // exec runs one operation on the real code and returns its canonical result.
 func (s *c04Server) exec(o c04Op) string {
+	s.rec = append(s.rec, o.line())
 	switch o.Kind {
 	case "upload":
 		code, _ := s.do(http.MethodPost, "/api/blobs/"+o.D.str(), o.Content)
@@ -434,17 +454,25 @@ func (s *c04Server) exec(o c04Op) string {
 			}
 			req["messages"] = ms
 		}
-		if o.NoStream {
-			// waitForStream: one JSON answer, the status code carries the first error or the success
-			req["stream"] = false
-			code, _ := s.doJSON(http.MethodPost, "/api/create", req)
-			if code == http.StatusOK {
-				return "s"
+		request := func() string {
+			if o.NoStream {
+				// waitForStream: one JSON answer, the status code carries the first error or the success
+				req["stream"] = false
+				code, _ := s.doJSON(http.MethodPost, "/api/create", req)
+				if code == http.StatusOK {
+					return "s"
+				}
+				return "e" + strconv.Itoa(code)
 			}
-			return "e" + strconv.Itoa(code)
+			code, body := s.doJSON(http.MethodPost, "/api/create", req)
+			return c04StreamResult(code, body)
 		}
-		code, body := s.doJSON(http.MethodPost, "/api/create", req)
-		return c04StreamResult(code, body)
+		if o.FromReg != nil {
+			// the FROM model may have to be pulled: scripted registry, fake time (in streaming mode the inner pull's
+			// own "success" status is one more `s` in the result)
+			return s.withNet(o.FromReg, request)
+		}
+		return request()
 	case "copy":
 		code, _ := s.doJSON(http.MethodPost, "/api/copy", map[string]string{"source": o.Src.full(), "destination": o.Dst.full()})
 		return "h" + strconv.Itoa(code)
@@ -622,8 +650,17 @@ func (n *c04Net) RoundTrip(req *http.Request) (*http.Response, error) {
 
 // pull runs POST /api/pull (streaming) in fake time against the scripted registry.
 func (s *c04Server) pull(o c04Op) string {
+	return s.withNet(o.Reg, func() string {
+		code, body := s.doJSON(http.MethodPost, "/api/pull", map[string]string{"model": o.Name.full()})
+		return c04StreamResult(code, body)
+	})
+}
+
+// withNet runs one request in fake time with http.DefaultTransport replaced by the scripted registry `reg`
+// (nil: the registry has no such model).
+func (s *c04Server) withNet(reg *c04Reg, request func() string) string {
 	net := &c04Net{blobs: map[string][]byte{}}
-	if o.Reg != nil {
+	if reg != nil {
 		lay := func(l c04RegLayer) Layer {
 			mt := ""
 			for k, v := range c04MediaCode {
@@ -637,10 +674,10 @@ func (s *c04Server) pull(o c04Op) string {
 			return Layer{MediaType: mt, Digest: "sha256:" + c04Sum(l.Content), Size: int64(len(l.Content))}
 		}
 		m := Manifest{SchemaVersion: 2, MediaType: "application/vnd.docker.distribution.manifest.v2+json"}
-		for _, l := range o.Reg.Layers {
+		for _, l := range reg.Layers {
 			m.Layers = append(m.Layers, lay(l))
 		}
-		m.Config = lay(o.Reg.Config)
+		m.Config = lay(reg.Config)
 		var err error
 		if net.manifest, err = json.Marshal(m); err != nil {
 			panic(err)
@@ -651,8 +688,7 @@ func (s *c04Server) pull(o c04Op) string {
 	defer func() { http.DefaultTransport = old }()
 	var res string
 	synctest.Test(s.t, func(t *testing.T) {
-		code, body := s.doJSON(http.MethodPost, "/api/pull", map[string]string{"model": o.Name.full()})
-		res = c04StreamResult(code, body)
+		res = request()
 		synctest.Wait()
 	})
 	return res
@@ -1208,6 +1244,9 @@ func (r *c04Run) apply(o c04Op) {
 	switch o.Kind {
 	case "create", "delete", "corrupt", "dashify", "pull":
 		targets = []c04Name{o.Name}
+		if o.Kind == "create" && o.FromReg != nil && o.From != nil {
+			targets = append(targets, *o.From) // the pull inside create … from writes the FROM model
+		}
 	case "copy", "plant":
 		targets = []c04Name{o.Dst}
 	}
@@ -1342,7 +1381,16 @@ func (r *c04Run) apply(o c04Op) {
 							b.Host == "registry.ollama.ai" && (b.Ns == "library" || a.Ns == b.Ns)) {
 						elided = "yes"
 					}
-					r.l2("case-twins", fmt.Sprintf("listed %s and %s; op=%s; pre-state spelling guard %s; elided-default=%s", a.full(), b.full(), o.Kind, guard, elided))
+					// is this pair the FROM model of a create, pulled under the name as written next to a stored model that
+					// differs from it by case only (finding N4)?  Judged on the PAIR, not on the request: one of the two is
+					// exactly the FROM name and was not listed before, the other was, and neither is the create's target.
+					twinOfFrom := "no"
+					if o.Kind == "create" && o.FromReg != nil && o.From != nil && !a.equalFold(o.Name) {
+						if a == *o.From && !was[a] && was[b] || b == *o.From && !was[b] && was[a] {
+							twinOfFrom = "yes"
+						}
+					}
+					r.l2("case-twins", fmt.Sprintf("listed %s and %s; op=%s; pre-state spelling guard %s; elided-default=%s; twin-of-from=%s", a.full(), b.full(), o.Kind, guard, elided, twinOfFrom))
 				}
 			}
 		}
@@ -1757,7 +1805,10 @@ func (g *c04Gen) litterOp0(sn *c04Snap) c04Op {
 
 func (g *c04Gen) next(sn *c04Snap) c04Op {
 	o := g.next0(sn)
-	if o.Kind == "create" && g.noStreamOK && g.r.Chance(1, 3) {
+	// (never together with a scripted FROM registry: with "stream": false, waitForStream answers 200 at the inner
+	// pull's own "success" status and stops reading, so the handler's goroutine blocks on its next progress message
+	// and the model is never created — recorded in notes/C04.md as N5; synctest would report the leaked goroutine)
+	if o.Kind == "create" && g.noStreamOK && o.FromReg == nil && g.r.Chance(1, 3) {
 		o.NoStream = true
 	}
 	return o
@@ -1780,6 +1831,12 @@ func (g *c04Gen) pullOp(sn *c04Snap) c04Op {
 	if g.r.Chance(1, 20) {
 		return o // the registry has no such model
 	}
+	o.Reg = g.registry("pull")
+	return o
+}
+
+// registry scripts what a registry serves for one name: honest, or with exactly one corrupted entry.
+func (g *c04Gen) registry(tag string) *c04Reg {
 	reg := &c04Reg{}
 	reg.Layers = append(reg.Layers, c04RegLayer{Media: "M", Content: zzverif.Pick(g.r, g.pool.ggufs)})
 	if g.r.Chance(1, 2) {
@@ -1800,17 +1857,16 @@ func (g *c04Gen) pullOp(sn *c04Snap) c04Op {
 		// corrupt exactly one entry; the config as often as all the others together
 		if g.r.Chance(1, 2) {
 			reg.Config.Served = c04Config("corrupted", 9)
-			g.outCount("pull_corrupt_config")
+			g.outCount(tag + "_corrupt_config")
 		} else {
 			i := g.r.Intn(len(reg.Layers))
 			reg.Layers[i].Served = append(append([]byte{}, reg.Layers[i].Content...), 'X')
-			g.outCount("pull_corrupt_layer_" + reg.Layers[i].Media)
+			g.outCount(tag + "_corrupt_layer_" + reg.Layers[i].Media)
 		}
 	} else {
-		g.outCount("pull_honest")
+		g.outCount(tag + "_honest")
 	}
-	o.Reg = reg
-	return o
+	return reg
 }
 
 func (g *c04Gen) outCount(k string) {
@@ -1899,6 +1955,22 @@ func (g *c04Gen) next0(sn *c04Snap) c04Op {
 		}
 		g.overrides(&o, 4)
 		return o
+	case x < 63 && g.noStreamOK && g.class != 5 && g.r.Chance(1, 7):
+		// create from a model that is NOT in the store under that spelling: parseFromModel pulls it (scripted
+		// registry) under the name as written in the request, then reads it back
+		src := g.name()
+		if n, ok := g.existing(sn, false); ok && g.r.Chance(1, 2) {
+			src = c04Name{n.Host, c04Recase(g.r, n.Ns), c04Recase(g.r, n.Model), c04Recase(g.r, n.Tag)}
+		}
+		o := c04Op{Kind: "create", Name: g.name(), From: &src}
+		if n, ok := g.existing(sn, true); ok && g.r.Chance(1, 3) {
+			o.Name = n
+		}
+		if !o.Name.equalFold(src) {
+			o.FromReg = g.registry("frompull")
+		}
+		g.overrides(&o, 4)
+		return o
 	case x < 63: // create from an existing model
 		src, _ := g.existing(sn, false)
 		o := c04Op{Kind: "create", Name: g.name(), From: &src}
@@ -1968,6 +2040,7 @@ func (r *c04Run) end() {
 // the tree contains (the oracle then models exactly that variant).  Each repair has more than one
 // observable facet; facets that disagree are reported as an L2 failure `variant-probe`.
 func c04Probe(t *testing.T, base string, pool *c04Pool, out *zzverif.Out) (fixAlias, fixResolve, fixReturn, fixKeep bool) {
+	probeHist := map[string][]string{} // repair -> the operations of the experiment that decided it
 	defer func() {
 		// N3: create LiBRARy/zz on an empty store, then pull library/zz: where does the manifest land?
 		s := c04NewServer(t, filepath.Join(base, "probe-p"))
@@ -1981,6 +2054,7 @@ func c04Probe(t *testing.T, base string, pool *c04Pool, out *zzverif.Out) (fixAl
 		if err != nil {
 			fixPullName = 1
 		}
+		probeHist["fixPullName"] = s.rec
 		b := func(x bool) int {
 			if x {
 				return 1
@@ -1988,11 +2062,35 @@ func c04Probe(t *testing.T, base string, pool *c04Pool, out *zzverif.Out) (fixAl
 			return 0
 		}
 		out.Add("variant_fixPullName", fixPullName)
-		out.Case(fmt.Sprintf("variant %d %d %d %d %d", b(fixAlias), b(fixResolve), b(fixReturn), b(fixKeep), fixPullName), "ok")
+		// N4: `foo` stored, create b from FOO with a registry that serves FOO: is FOO pulled next to foo?
+		s = c04NewServer(t, filepath.Join(base, "probe-f"))
+		s.exec(c04Op{Kind: "upload", Content: g0, D: c04Digest{Hex: c04Sum(g0)}})
+		s.exec(c04Op{Kind: "create", Name: c04Name{"registry.ollama.ai", "library", "foo", "latest"}, Files: []c04Digest{{Hex: c04Sum(g0)}}})
+		fromFOO := c04Name{"registry.ollama.ai", "library", "FOO", "latest"}
+		s.exec(c04Op{Kind: "create", Name: c04Name{"registry.ollama.ai", "library", "b", "latest"}, From: &fromFOO,
+			FromReg: &c04Reg{Layers: []c04RegLayer{{Media: "M", Content: g0}}, Config: c04RegLayer{Media: "C", Content: c04Config("llama", 1)}}})
+		fixFrom := 0
+		if _, err := os.Stat(s.manifestPath(fromFOO)); err != nil {
+			fixFrom = 1
+		}
+		out.Add("variant_fixFromResolve", fixFrom)
+		probeHist["fixFromResolve"] = s.rec
+		out.Case(fmt.Sprintf("variant %d %d %d %d %d %d", b(fixAlias), b(fixResolve), b(fixReturn), b(fixKeep), fixPullName, fixFrom), "ok")
+		// the check states which repairs the tree is EXPECTED to contain (KNOWN_FINDINGS: a `fixed` entry must be
+		// repaired): a repair that the probe does not find is a regression, reported with the probe's own history
+		got := map[string]int{"fixAlias": b(fixAlias), "fixResolve": b(fixResolve), "fixReturn": b(fixReturn),
+			"fixKeep": b(fixKeep), "fixPullName": fixPullName, "fixFromResolve": fixFrom}
+		for _, want := range strings.Split(os.Getenv("VERIF_C04_EXPECT_FIXED"), ",") {
+			if want != "" && got[want] == 0 {
+				out.L2("variant-regressed", strings.Join(probeHist[want], " ;; "),
+					want+": the repair recorded in KNOWN_FINDINGS.jsonl is not in the tree under test (probe history given as the case)")
+			}
+		}
 	}()
 	g0 := pool.ggufs[0]
 	h0 := c04Sum(g0)
 	nm := func(ns, m string) c04Name { return c04Name{"registry.ollama.ai", ns, m, "latest"} }
+	_ = probeHist
 	fresh := func(tag string) *c04Server {
 		dir := filepath.Join(base, "probe-"+tag)
 		if err := os.MkdirAll(dir, 0o755); err != nil {
@@ -2029,6 +2127,7 @@ func c04Probe(t *testing.T, base string, pool *c04Pool, out *zzverif.Out) (fixAl
 	s.exec(c04Op{Kind: "dashify", Name: nm("library", "b")})
 	s.exec(c04Op{Kind: "delete", Name: nm("library", "b")})
 	deleteKeeps := blobThere(s)
+	probeHist["fixAlias"] = s.rec
 	s = fresh("a2")
 	s.exec(up)
 	s.exec(mk(nm("library", "b"), true))
@@ -2057,12 +2156,14 @@ func c04Probe(t *testing.T, base string, pool *c04Pool, out *zzverif.Out) (fixAl
 		}
 	}
 	fixResolve = agree("F16b", whole, part)
+	probeHist["fixResolve"] = append(append([]string{}, s.rec...), mk(nm("library", "foo"), false).line())
 
 	// N1: a create whose FROM cannot be resolved
 	s = fresh("n")
 	s.exec(up)
 	s.exec(mk(nm("library", "a"), false))
 	res := s.exec(c04Op{Kind: "create", Name: nm("library", "a"), From: &c04Name{"localhost:9", "nobody", "missing", "latest"}})
+	probeHist["fixReturn"] = s.rec
 	switch res {
 	case "e500":
 		fixReturn = true
@@ -2078,6 +2179,7 @@ func c04Probe(t *testing.T, base string, pool *c04Pool, out *zzverif.Out) (fixAl
 		Params: [][2]string{{"num_ctx", "2048"}}})
 	_, err := os.Stat(filepath.Join(s.dir, "blobs", "sha256-"+c04Sum(pool.chatP)))
 	fixKeep = err == nil
+	probeHist["fixKeep"] = s.rec
 
 	b := func(x bool) int {
 		if x {
@@ -2196,6 +2298,31 @@ func TestVerifC04(t *testing.T) {
 			{Kind: "corrupt", Name: nm("library", "a")}, {Kind: "prune"},
 			mk(nm("library", "b"), false, g1), {Kind: "delete", Name: nm("library", "b")},
 			{Kind: "delete", Name: nm("library", "a")}, {Kind: "noprune", On: false}, {Kind: "prune"}},
+		// create … from a model that is not in the store: the handler pulls it (under the name as written: N4), reads it
+		// back and builds on it; a registry that serves a corrupted config makes the create fail with the verified
+		// weights left as an orphan
+		{up(g0), mk(nm("library", "foo"), false, g0),
+			{Kind: "create", Name: nm("library", "b"), From: &c04Name{"registry.ollama.ai", "other", "base", "latest"}, Sys: pool.syss[0],
+				FromReg: &c04Reg{Layers: []c04RegLayer{{Media: "M", Content: g1}, {Media: "T", Content: pool.tmpls[0]}}, Config: c04RegLayer{Media: "C", Content: c04Config("llama", 1)}}},
+			{Kind: "create", Name: nm("library", "c"), From: &c04Name{"registry.ollama.ai", "other", "base2", "latest"},
+				FromReg: &c04Reg{Layers: []c04RegLayer{{Media: "M", Content: pool.ggufs[2]}}, Config: c04RegLayer{Media: "C", Content: c04Config("gemma", 2), Served: c04Config("corrupted", 9)}}},
+			{Kind: "delete", Name: c04Name{"registry.ollama.ai", "other", "base", "latest"}}, {Kind: "prune"},
+			{Kind: "create", Name: nm("library", "d"), From: &c04Name{"registry.ollama.ai", "library", "FOO", "latest"},
+				FromReg: &c04Reg{Layers: []c04RegLayer{{Media: "M", Content: g0}}, Config: c04RegLayer{Media: "C", Content: c04Config("llama", 1)}}}},
+		// every result class of every API operation once, deterministically (the coverage requirement of the check
+		// must not depend on the seed)
+		{up(g0), up(g0), {Kind: "upload", Content: g1, D: c04Digest{Hex: c04Sum(g0)}}, {Kind: "upload", Content: pool.texts[0], D: c04Digest{Hex: c04Sum(g1)}},
+			mk(nm("library", "a"), false, g0), {Kind: "create", Name: nm("library", "a"), Files: []c04Digest{{Hex: c04Sum(g0)}}, Tmpl: pool.badT},
+			{Kind: "create", Name: nm("library", "t"), Files: []c04Digest{{Hex: c04Sum(pool.texts[0])}}},
+			{Kind: "create", Name: nm("library", "t"), Files: []c04Digest{{Hex: c04Sum(pool.ggufs[3])}}},
+			{Kind: "copy", Src: nm("library", "a"), Dst: nm("library", "a")}, {Kind: "copy", Src: nm("library", "a"), Dst: nm("library", "c")},
+			{Kind: "copy", Src: nm("library", "c"), Dst: nm("library", "a")}, {Kind: "delete", Name: nm("library", "nosuch")},
+			{Kind: "create", Name: nm("library", "a"), From: &c04Name{"registry.ollama.ai", "library", "c", "latest"}, Sys: pool.syss[0], Lics: [][]byte{pool.lics[0]},
+				Params: [][2]string{{"num_ctx", "2048"}}, Tmpl: pool.tmpls[0], TmplOK: true},
+			{Kind: "plant", Src: nm("library", "a"), Dst: nm("other", "A")}, {Kind: "dashify", Name: nm("library", "c")},
+			{Kind: "delete", Name: nm("library", "c")}, {Kind: "corrupt", Name: nm("library", "a")}, {Kind: "delete", Name: nm("library", "a")}, {Kind: "prune"}},
+		// directories made by a copy whose source does not exist are collected by the start-up prune
+		{{Kind: "copy", Src: nm("library", "nosuch"), Dst: c04Name{"example.com", "x", "y", "latest"}}, {Kind: "prune"}},
 		// MESSAGE: the messages layer is replaced (drop, then store), shared between a model and its copy, and its
 		// text may equal a SYSTEM text of another model
 		{up(g0), {Kind: "create", Name: nm("library", "a"), Files: []c04Digest{{Hex: c04Sum(g0)}}, Msgs: [][2]string{{"user", "hi"}, {"assistant", "hello there"}}},
@@ -2275,17 +2402,17 @@ func TestVerifC04(t *testing.T) {
 		r := root.Fork()
 		class := 0
 		switch x := r.Intn(100); {
-		case x < 55:
+		case x < 52:
 			class = 0
-		case x < 70:
+		case x < 66:
 			class = 1
-		case x < 80:
+		case x < 76:
 			class = 2
-		case x < 86:
+		case x < 82:
 			class = 3
-		case x < 90:
+		case x < 87:
 			class = 4
-		case x < 93:
+		case x < 92:
 			class = 6 // OLLAMA_NOPRUNE switched on and off inside the history
 		default:
 			class = 5 // non-blob file names in blobs/ + frequent startup prunes
